@@ -107,6 +107,65 @@ func TestC06_SessionBehindHandshake(t *testing.T) {
 			}
 			refusedFirst = fmt.Sprintf("%s+%dB body", status, len(body))
 		}
+		// In another sixth of the cases the Stream has had a session that was cut in the middle of a fragmented message:
+		// the client read the first fragment (frame API), then the connection went away. The next session starts with
+		// no message in progress.
+		if refusedFirst == "" && rapid.IntRange(0, 4).Draw(rt, "interruptedFirst") == 0 {
+			il, err := net.Listen("tcp", "127.0.0.1:0")
+			if err != nil {
+				rt.Fatalf("INFRA: listen: %v", err)
+			}
+			gone := make(chan struct{})
+			go func() {
+				c, err := il.Accept()
+				if err != nil {
+					return
+				}
+				defer c.Close()
+				_ = c.SetDeadline(time.Now().Add(5 * time.Second))
+				var req []byte
+				b := make([]byte, 4096)
+				for !bytes.Contains(req, []byte("\r\n\r\n")) {
+					n, err := c.Read(b)
+					req = append(req, b[:n]...)
+					if err != nil {
+						return
+					}
+				}
+				key := ""
+				for _, line := range strings.Split(string(req), "\r\n") {
+					if i := strings.Index(line, ":"); i > 0 && strings.EqualFold(line[:i], "Sec-WebSocket-Key") {
+						key = strings.TrimSpace(line[i+1:])
+					}
+				}
+				_, _ = c.Write([]byte("HTTP/1.1 101 Switching Protocols\r\nUpgrade: websocket\r\nConnection: Upgrade\r\nSec-WebSocket-Accept: " + rfc6455.AcceptKey(key) + "\r\n\r\n"))
+				_, _ = c.Write(rfc6455.Encode(rfc6455.Frame{Fin: false, Opcode: rfc6455.OpText, Payload: []byte("first fragment of a message that never ends"), LenBytes: -1}))
+				<-gone
+			}()
+			if err := s.Handshake(fmt.Sprintf("ws://%s/", il.Addr().String())); err != nil {
+				rt.Fatalf("INFRA: handshake of the interrupted session: %v", err)
+			}
+			fch := make(chan error, 1)
+			go func() {
+				f, err := s.NextFrame()
+				if err == nil && (f.IsFIN() || !f.Opcode().IsText()) {
+					err = fmt.Errorf("unexpected frame %v", f)
+				}
+				fch <- err
+			}()
+			select {
+			case err := <-fch:
+				if err != nil {
+					rt.Fatalf("INFRA: reading the first fragment of the interrupted session: %v", err)
+				}
+			case <-time.After(5 * time.Second):
+				rt.Fatalf("INFRA: the first fragment of the interrupted session never arrived")
+			}
+			_ = s.CloseNextLayer() // the connection goes away in the middle of the message
+			close(gone)
+			_ = il.Close()
+			refusedFirst = "interrupted mid-message"
+		}
 		async := rapid.Bool().Draw(rt, "async")
 		desc := fmt.Sprintf("refusedFirst=%q piggy=%d partial=%d later=%d cuts=%v endcuts=%v extra=%v async=%v", refusedFirst, len(p.Piggy), p.PartialCut, len(p.Later), p.Cuts, p.EndCuts, p.Extra, async)
 		_ = refusedFirst
@@ -248,7 +307,7 @@ func TestC06_SessionBehindHandshake(t *testing.T) {
 			cls = append(cls, "cut-inside-the-final-CRLFCRLF")
 		}
 		if refusedFirst != "" {
-			cls = append(cls, "after-a-refused-attempt-with-a-body")
+			cls = append(cls, "after-a-previous-life:"+strings.SplitN(refusedFirst, "+", 2)[0])
 		}
 		rec.Case("hs:"+desc+fmt.Sprintf("|%x", head(want[0].Payload, 6)), len(p.Cuts)+len(p.EndCuts) > 0, cls, map[string]any{"plan": desc})
 	})
